@@ -30,6 +30,7 @@ func init() {
 			g(rep, "STICKY", func() { ruleSTICKYAI(p, rep); ruleSTICKYSSA(p, rep) })
 			g(rep, "VALIDATE-COMPLETE", func() { ruleVALIDATECOMPLETE(p, rep) })
 			g(rep, "CHECKSUM-COVERAGE", func() { ruleCHECKSUMCOVERAGE(p, rep) })
+			g(rep, "TRUNCATE-COVERS", func() { ruleTRUNCATECOVERS(p, rep) })
 		},
 	})
 	register(&propertyDef{
@@ -60,6 +61,7 @@ func init() {
 			g(rep, "STABLE-BATCH", func() { ruleSTABLEBATCH(p, rep) })
 			g(rep, "WAL-RELEASE-ON-FREE", func() { ruleWALRELEASEONFREE(p, rep) })
 			g(rep, "CHECKPOINT-COMPLETE", func() { ruleCHECKPOINTCOMPLETE(p, rep) })
+			g(rep, "READ-LOCATION", func() { ruleREADLOCATION(p, rep) })
 		},
 	})
 	register(&propertyDef{
@@ -73,6 +75,8 @@ func init() {
 			g(rep, "INV-FL", func() { ruleINVFL(p, rep) })
 			g(rep, "PAGE-BOUNDS", func() { rulePAGEBOUNDS(p, rep) })
 			g(rep, "WAL-RELEASE-ON-FREE", func() { ruleWALRELEASEONFREE(p, rep) })
+			g(rep, "TOMBSTONE", func() { ruleTOMBSTONE(p, rep) })
+			g(rep, "SNAPSHOT-AFTER-ALLOC", func() { ruleSNAPSHOTAFTERALLOC(p, rep) })
 		},
 	})
 	register(&propertyDef{
@@ -98,7 +102,9 @@ func init() {
 			g(rep, "ORDER", func() { ruleORDER(p, rep, orderSet("ROLLBACK-ON-EVERY-FAILURE", "COMMITPOINT")) })
 			g(rep, "UNDO-JOURNAL", func() { ruleUNDOJOURNAL(p, rep) })
 			g(rep, "INV-FL", func() { ruleINVFL(p, rep) })
+			g(rep, "DEFERFREE", func() { ruleDEFERFREE(p, rep) })
 			g(rep, "PRECOMMIT-NO-ALIAS", func() { rulePRECOMMITNOALIAS(p, rep) })
+			g(rep, "TRUNCATE-COVERS", func() { ruleTRUNCATECOVERS(p, rep) })
 		},
 	})
 	register(&propertyDef{
@@ -155,6 +161,7 @@ func init() {
 		run: func(p *Program, rep *Report, tier string) {
 			g(rep, "KEEPWRITEPAGE", func() { ruleKEEPWRITEPAGE(p, rep) })
 			g(rep, "FREE-ALL-CONSUMED", func() { ruleFREEALLCONSUMED(p, rep) })
+			g(rep, "ACK-SCAN-FROM-HEAD", func() { ruleACKSCANFROMHEAD(p, rep) })
 			g(rep, "PQTX", func() { rulePQTX(p, rep) })
 			g(rep, "CLEANUP-MAY-OVERFLOW", func() { ruleCLEANUPMAYOVERFLOW(p, rep) })
 			g(rep, "ERRDISC", func() { ruleERRDISC(p, rep, "pq", false) })
@@ -184,6 +191,7 @@ func init() {
 			g(rep, "ORDER", func() { ruleORDER(p, rep, orderSet("ORDER", "SLOT", "FINALIZE", "COMMIT-ERROR-PATH")) })
 			g(rep, "ERRDISC", func() { ruleERRDISC(p, rep, "", false) })
 			g(rep, "PRECOMMIT-NO-ALIAS", func() { rulePRECOMMITNOALIAS(p, rep) })
+			g(rep, "TRUNCATE-COVERS", func() { ruleTRUNCATECOVERS(p, rep) })
 		},
 	})
 	register(&propertyDef{
@@ -193,6 +201,7 @@ func init() {
 		run: func(p *Program, rep *Report, tier string) {
 			g(rep, "LIFECYCLE", func() { ruleLIFECYCLE(p, rep, "") })
 			g(rep, "PAGE-BOUNDS", func() { rulePAGEBOUNDS(p, rep) })
+			g(rep, "TOMBSTONE", func() { ruleTOMBSTONE(p, rep) })
 			g(rep, "SETBYTES-BOUND", func() { ruleSETBYTESBOUND(p, rep) })
 		},
 	})
@@ -205,6 +214,7 @@ func init() {
 			g(rep, "VALIDATE-COMPLETE", func() { ruleVALIDATECOMPLETE(p, rep) })
 			g(rep, "CHECKSUM-COVERAGE", func() { ruleCHECKSUMCOVERAGE(p, rep) })
 			g(rep, "NO-PANIC-ON-INPUT", func() { ruleNOPANICONINPUT(p, rep) })
+			g(rep, "TXID-COMPARE", func() { ruleTXIDCOMPARE(p, rep) })
 			g(rep, "ORDER", func() { ruleORDER(p, rep, orderSet("FINALIZE")) })
 		},
 	})
